@@ -10,15 +10,15 @@ META = {
             "(fuel bound 2^w proved, exact iteration count), shifts by any amount, todouble as exact truncation, constructors, free operators "
             "with unsigned/signed built-in operands on both sides, self-aliasing compound forms, ring laws on digit arrays, every "
             "numeric_limits member, hash_value (bit-exact model of hash_combiner<8>), stream insertion; the model is tied "
-            "to dune/common/bigunsignedint.hh on every run by running extracted model and the C++ class (12 widths) on identical "
-            "exhaustive digit-alphabet, boundary-directed and random operands and by re-reading ~45 constants from the source (tools/params.d/C10.py), "
+            "to dune/common/bigunsignedint.hh on every run by running extracted model and the C++ class (17 widths, 1..1024 bits) on identical "
+            "exhaustive digit-alphabet, boundary-directed and random operands and random object histories (aliasing, special members, built-in operand types, throwing steps; theorem C10_histories) and by re-reading ~45 constants from the source (tools/params.d/C10.py), "
             "which the `consts`/`limits` cases compare with the compiled values.",
     "note": "Trusted: Coq kernel, extraction, OCaml driver, C++ harness (operands written through the object representation), "
             "g++; std::hash<uint16_t> = identity; std::ldexp exactness.",
     "design_ref": "DESIGN.md section 4 C10",
 }
 
-KS = [8, 16, 17, 24, 32, 40, 48, 64, 65, 100, 128, 200]
+KS = [1, 8, 15, 16, 17, 24, 32, 33, 40, 48, 63, 64, 65, 100, 128, 200, 1024]
 ALPHA = ["0000", "0001", "7fff", "8000", "fffe", "ffff"]
 BIN = ["add", "sub", "mul", "and", "or", "xor"]
 CMP = ["lt", "le", "gt", "ge", "eq", "ne"]
@@ -64,9 +64,10 @@ def gen(ctx):
             lead = rng.randrange(n + 1)       # leading zero digits
             return "0000" * lead + "".join(rdig() for _ in range(n - lead))
         return "".join(rdig() for _ in range(n))
-    N = 150 if quick else 2500
+    N0 = 150 if quick else 2500
     for k in KS:
         n = nd(k)
+        N = N0 if n <= 16 else max(60, N0 // 5)      # the exact-integer oracle is quadratic in the width
         for op in BIN + CMP + ["hasheq"]:
             for _ in range(N):
                 a = rval(n); b = a if rng.random() < 0.08 else rval(n)
@@ -86,8 +87,12 @@ def gen(ctx):
         # all shift counts below w; shl also at and beyond w (any amount), shr up to w+15 (beyond that the code
         # indexes out of bounds: C10_shift_any, not executed on the impl)
         w = 16 * n
-        for a in [rval(n) for _ in range(2 if quick else 12)] + ["ffff" * n, "0000" * (n - 1) + "0001", "8000" + "0000" * (n - 1)]:
-            for s in range(w):
+        for a in [rval(n) for _ in range((2 if w <= 256 else 1) if quick else 12)] + ["ffff" * n, "0000" * (n - 1) + "0001", "8000" + "0000" * (n - 1)][:3 if w <= 256 else 2]:
+            # every count for widths up to 256 bits; for wider types every count up to 2 digits, around every 7th digit
+            # boundary, the last 17 and a random sample (the oracle's exact 2^s arithmetic is quadratic in w)
+            counts = range(w) if w <= 256 else sorted(set(list(range(34)) + [16 * j + e for j in range(2, n, 7) for e in (-1, 0, 1)]
+                                                          + list(range(w - 17, w)) + [rng.randrange(w) for _ in range(40)]))
+            for s in counts:
                 cases.append("%d shl %s %d" % (k, a, s))
                 cases.append("%d shr %s %d" % (k, a, s))
             for s in [w, w + 1, w + 15, w + 16, w + 17, 2 * w, 3 * w + 5, 100000]:
@@ -179,6 +184,28 @@ def gen(ctx):
                 if q <= 5000:
                     for o in ["div", "mod"]:
                         cases.append("%d %s %s %s %d %d ll" % (k, side, o, a, y, q + 2))
+        # object histories with aliasing, special members, built-in operand types, throwing steps (theorem C10_histories)
+        for _ in range((60 if quick else 1500) if n <= 16 else (30 if quick else 300)):
+            cases.append("%d prog %s" % (k, gen_prog(rng, n, steps=rng.choice([3, 8, 14]))))
+        for a_ in ["0000" * n, "ffff" * n, rval(n)]:
+            for o in BIN + ["div", "mod"]:          # every operator with all operands the same object, compound and binary
+                cases.append("%d prog %s,%s C:%s:0:0,B:%s:1:1:1,Q:eq:0:1" % (k, a_, a_, o, o))
+            cases.append("%d prog %s,%s %s" % (k, a_, a_, ",".join("Q:%s:0:0" % c for c in CMP) + ",A:0:0,M:1:1,S:0:0,S:0:1,K:1:1,X:0:0,Q:eq:0:1"))
+        # the unsigned built-in types as constructor argument, as operand of the free operators
+        for ty, bits in UT + [("char16", 16), ("implicit", 64)]:
+            for x in [0, 1, (1 << bits) - 1, rng.randrange(1 << bits)]:
+                cases.append("%d assign %x %s" % (k, x, ty))
+                if ty not in ("char16", "implicit"):
+                    a_ = rval(n)
+                    for side in ["mixl", "mixr"]:
+                        cases.append("%d %s %s %s %x 0 %s" % (k, side, rng.choice(["add", "sub", "mul"]), a_, x, ty))
+        cases.append("%d layout" % k)
+        for x in [-(1 << 63), (1 << 63) - 1, 5]:
+            cases.append("%d signed %d" % (k, x))
+        cases.append("%d signed 7 ptr" % k)
+        if n <= 1:
+            cases.append("%d div %s %s 65536" % (k, "ffff", "0001"))     # the longest division of the width: 65535 subtractions
+            cases.append("%d mod %s %s 65536" % (k, "ffff", "0001"))
         for _ in range(8):
             cases.append("%d stream %s" % (k, rval(n)))
         for _ in range(3):
@@ -190,6 +217,105 @@ def gen(ctx):
         for op in ["max", "min", "digits"]:
             cases.append("%d %s" % (k, op))
     return cases
+
+
+ARITH = ["add", "sub", "mul", "div", "mod"]
+UT = [("uc", 8), ("us", 16), ("u", 32), ("ul", 64), ("ull", 64), ("bool", 1)]
+ST = [("sc", 8), ("s", 16), ("i", 32), ("l", 64), ("ll", 64)]
+
+
+def gen_prog(rng, n, nreg=3, steps=12, qmax=2500):
+    """One object history over nreg registers (instruction set of coq/C10_Model.v c10_instr), generated together with
+    an exact-integer simulation that keeps every quotient below qmax (the code divides by repeated subtraction).
+    Aliased operands (d == s, d == s == t) are drawn on purpose with high probability."""
+    w = 16 * n; M = 1 << w
+    def rdig():
+        return rng.choice(ALPHA) if rng.random() < 0.6 else "%04x" % rng.randrange(65536)
+    regs = []
+    for _ in range(nreg):
+        z = rng.random()
+        regs.append(0 if z < 0.1 else int("".join(rdig() for _ in range(n)), 16) >> (rng.randrange(w) if z < 0.5 else 0))
+    st = list(regs)
+    fmt = "%0" + str(4 * n) + "x"
+    toks = []
+    def reg():
+        return rng.randrange(nreg)
+    def okdiv(x, y):
+        return y == 0 or x // y <= qmax
+    def apply(o, x, y):
+        if o == "add": return (x + y) % M
+        if o == "sub": return (x - y) % M
+        if o == "mul": return (x * y) % M
+        if o == "div": return None if y == 0 else x // y
+        if o == "mod": return None if y == 0 else x % y
+        if o == "and": return x & y
+        if o == "or": return x | y
+        return x ^ y
+    for _ in range(steps):
+        z = rng.random()
+        d = reg(); s_ = d if rng.random() < 0.4 else reg(); t_ = rng.choice([d, s_, reg()])
+        if z < 0.25:
+            o = rng.choice(BIN + ["div", "mod", "div", "mod"])
+            if o in ("div", "mod") and not okdiv(st[d], st[s_]):
+                o = "sub"
+            r = apply(o, st[d], st[s_]); toks.append("C:%s:%d:%d" % (o, d, s_))
+            if r is not None: st[d] = r
+        elif z < 0.45:
+            o = rng.choice(BIN + ["div", "mod", "div", "mod"])
+            if o in ("div", "mod") and not okdiv(st[s_], st[t_]):
+                o = "xor"
+            r = apply(o, st[s_], st[t_]); toks.append("B:%s:%d:%d:%d" % (o, d, s_, t_))
+            if r is not None: st[d] = r
+        elif z < 0.50:
+            toks.append("I:%d" % d); st[d] = (st[d] + 1) % M
+        elif z < 0.54:
+            toks.append("N:%d:%d" % (d, s_)); st[d] = M - 1 - st[s_]
+        elif z < 0.60:
+            c = rng.choice([0, 1, 15, 16, 17, w - 1, w, w + 3, 2 * w + 5, rng.randrange(w)])
+            toks.append("L:%d:%d:%d" % (d, s_, c)); st[d] = (st[s_] << c) % M
+        elif z < 0.66:
+            c = rng.choice([0, 1, 15, 16, 17, w - 1, w, w + 15, rng.randrange(w)])
+            toks.append("R:%d:%d:%d" % (d, s_, c)); st[d] = st[s_] >> c
+        elif z < 0.74:
+            toks.append("%s:%d:%d" % (rng.choice("AMKX"), d, s_)); st[d] = st[s_]
+        elif z < 0.78:
+            toks.append("S:%d:%d" % (d, s_)); st[d], st[s_] = st[s_], st[d]
+        elif z < 0.86:
+            ty, bits = rng.choice(UT)
+            u = rng.choice([0, 1, (1 << bits) - 1, rng.randrange(1 << bits), rng.randrange(1 << min(bits, 9))]) % (1 << bits)
+            o = rng.choice(BIN + ["div", "mod"])
+            if o in ("div", "mod") and not okdiv(st[d], u % M):
+                o = "and"
+            r = apply(o, st[d], u % M); toks.append("U:%s:%d:%x:%s" % (o, d, u, ty))
+            if r is not None: st[d] = r
+        elif z < 0.91:
+            ty, bits = rng.choice(ST)
+            lo, hi = -(1 << (bits - 1)), (1 << (bits - 1)) - 1
+            y = rng.choice([lo, -1, 0, 1, hi, rng.randrange(lo, hi + 1), rng.randrange(0, min(hi, 600) + 1)])
+            o = rng.choice(BIN + ["div", "mod"])
+            if y >= 0 and o in ("div", "mod") and not okdiv(st[d], y % M):
+                o = "or"
+            toks.append("G:%s:%d:%d:%s" % (o, d, y, ty))
+            if y >= 0:
+                r = apply(o, st[d], y % M)
+                if r is not None: st[d] = r
+        elif z < 0.95:
+            u = rng.choice([0, 1, (1 << 64) - 1, rng.randrange(1 << 64), rng.randrange(1 << 17)])
+            o = rng.choice(ARITH)
+            if o in ("div", "mod") and not okdiv(u % M, st[d]):
+                o = "sub"
+            r = apply(o, u % M, st[d]); toks.append("V:%s:%d:%x" % (o, d, u))
+            if r is not None: st[d] = r
+        else:
+            c = rng.choice(CMP)
+            q = rng.random()
+            if q < 0.5:
+                toks.append("Q:%s:%d:%d" % (c, d, s_))
+            elif q < 0.8:
+                toks.append("QU:%s:%d:%x" % (c, d, rng.choice([st[d] % (1 << 64), rng.randrange(1 << 64), 0])))
+            else:
+                toks.append("QR:%s:%d:%x" % (rng.choice(["eq", "ne"]), d, rng.choice([st[d] % (1 << 64), rng.randrange(1 << 64)])))
+    return "%s %s" % (",".join(fmt % r for r in regs), ",".join(toks))
 
 
 def oracle_line(case, impl, spec):
@@ -212,6 +338,8 @@ def oracle_line(case, impl, spec):
     if t[1] in ("mixsl", "mixsr") and int(t[4]) < 0:
         return None if impl == "EXC Exception" else ("negative built-in operand %s not rejected (direct construction rejects it): "
                                                      "result %s" % (t[4], impl))
+    if t[1] == "prog" and impl.startswith("HANG"):
+        return "a statement of the history does not return (the property demands: never looping); expected %s" % spec
     if t[1] == "self" and impl.startswith("HANG"):
         return "x %s= x does not return (the property demands: never looping); value semantics give %s" % (t[2], spec)
     if t[1] == "hash":
@@ -233,6 +361,8 @@ def sig_of(case):
         extra = ":n=1" if nd(k) == 1 else ""
     if op in ("mixsl", "mixsr"):
         return "C10:mixed-signed:%s" % ("negative" if int(t[4]) < 0 else "nonnegative")
+    if op == "prog":
+        return "C10:history"
     if op == "streamsb":
         return "C10:stream:showbase"
     if op == "self":
@@ -245,15 +375,16 @@ def run(ctx):
     V.coq_stage(ctx)
     model = V.build_model(ctx)
     impl, impl_san = V.cxx_many(ctx, [
-        dict(srcs=[os.path.join(V.VERIF, "harness/C10/impl.cc")], out=ctx.path("impl"), opt="-O2"),
-        dict(srcs=[os.path.join(V.VERIF, "harness/C10/impl.cc")], out=ctx.path("impl_san"), san=True),
+        dict(srcs=[os.path.join(V.VERIF, "harness/C10/impl.cc")], out=ctx.path("impl"), opt="-O2", timeout=1800),
+        dict(srcs=[os.path.join(V.VERIF, "harness/C10/impl.cc")], out=ctx.path("impl_san"), san=True, flags=["-DC10_SAN_SUBSET"], timeout=1800),
     ])
     cases = gen(ctx)
     ctx.log("generated %d cases" % len(cases))
     mo = V.run_cases(ctx, [model], cases, tag="model", timeout=600)
     io = V.run_cases(ctx, [impl], cases, tag="impl", timeout=30 if ctx.quick else 120)
     # sanitizer variant on a subsample (memory safety of touint etc.)
-    sub = list(range(0, len(cases), 7 if ctx.quick else 3))
+    SAN_KS = {"1", "8", "16", "17", "33", "64", "65", "128", "1024"}     # widths instantiated under -DC10_SAN_SUBSET
+    sub = [i for i in range(0, len(cases), 5 if ctx.quick else 3) if cases[i].split()[0] in SAN_KS]
     so = V.run_cases(ctx, [impl_san], [cases[i] for i in sub], tag="san", timeout=120 if ctx.quick else 600)
     ndis = nviol = 0
     ops = {}
@@ -265,6 +396,9 @@ def run(ctx):
         if reason is not None:
             nviol += 1
             sg = sig_of(c)
+            if op == "prog":      # WHAT fails in the history, from the impl's own observation
+                sg += (":hang" if "HANG" in a else ":throwing-statement-modifies-object" if "modified by a throwing" in a
+                       else ":returned-reference" if "does not return *this" in a else ":state")
             persig[sg] = persig.get(sg, 0) + 1
             # capped PER SIGNATURE: hits of a listed known finding must never crowd out a fresh violation
             if persig[sg] <= 25:
@@ -291,7 +425,8 @@ def run(ctx):
         "rule": "cases = corpus + exhaustive pairs over digit alphabet {0000,0001,7fff,8000,fffe,ffff}^n for n<=2 (thorough: n<=3) x binary ops and comparisons "
                 "+ seeded random operands for k in %s + all shift counts 0..w-1 and counts >= w + constructed divisions (quotient 0, exact multiples, remainder b-1, "
                 "least sufficient fuel) + self-aliasing compound forms + signed/unsigned built-in operands on either side + hash values + all numeric_limits members "
-                "+ compiled constants; non-trivial = some operand digit non-zero; distinct = distinct case lines" % KS,
+                "+ compiled constants + object histories of 3/8/14 statements over three objects (operands aliased with probability 0.4, copy/move/swap, "
+                "built-in operands of every integral type, throwing statements) + typed constructor arguments; non-trivial = some operand digit non-zero; distinct = distinct case lines" % KS,
         "samples": cases[:2] + cases[len(cases) // 2: len(cases) // 2 + 2] + cases[-2:],
         "op_distribution": ops, "widths": KS, "impl_model_disagreements": ndis, "oracle_rejections": nviol,
         "sanitizer_cases": len(sub), "exhaustive": False,
